@@ -329,28 +329,33 @@ def path_growth_cases():
     """Path.append / Path.extend_path: self.conditions holds every accumulated constraint"""
     out = []
 
-    for kind in ("new", "duplicate", "true", "new-after-others"):
+    for kind in ("new", "duplicate", "true", "new-after-others", "ground (no variable)", "ground after others"):
 
         def harness(interp, kind=kind):
             ctx = interp.ctx
             log = []
             p = _blank_path(RecSolver(None, log))
             a, b, c = z3.Bools("a b c")
-            pre = [a, b] if kind in ("duplicate", "new-after-others") else []
+            # a constraint without any variable (what Exec.sha3_data records for the hash of concrete data: f_sha3_256(0) == 0x29..)
+            F = z3.Function("f_sha3_256", z3.BitVecSort(256), z3.BitVecSort(256))
+            g = F(z3.BitVecVal(0, 256)) == z3.BitVecVal(0x290D, 256)
+            pre = [a, b] if kind in ("duplicate", "new-after-others", "ground after others") else []
             for x in pre:
                 hs.Path.append(p, x, True)
             del log[:]
             before = dict(p.conditions)
-            new = {"new": c, "duplicate": a, "true": z3.BoolVal(True), "new-after-others": c}[kind]
+            new = {"new": c, "duplicate": a, "true": z3.BoolVal(True), "new-after-others": c, "ground (no variable)": g, "ground after others": g}[kind]
             interp.call(hs.Path.append, [p, new], {"branching": True})
-            if kind in ("new", "new-after-others"):
+            if kind.startswith("ground"):
+                c = z3.simplify(g)
+            if kind in ("new", "new-after-others") or kind.startswith("ground"):
                 ctx.oblige("append: the condition is recorded (last, with its branching flag)", z3.BoolVal(list(p.conditions.items()) == list(before.items()) + [(c, True)]))
                 ctx.oblige("append: the same condition goes to the solver", z3.BoolVal(log == [("add", c)]))
             else:
                 ctx.oblige("append: a duplicate or trivially true condition changes nothing", z3.BoolVal(p.conditions == before and log == []))
             ctx.oblige("append: earlier conditions are kept", z3.BoolVal(list(p.conditions.items())[: len(before)] == list(before.items())))
 
-        out.append(Case(f"{PROP}/sevm.Path.append", kind, harness, sources=("halmos.sevm:Path.append",)))
+        out.append(Case(f"{PROP}/sevm.Path.append", kind, harness, replay=replay_ground_constraint, sources=("halmos.sevm:Path.append",)))
 
     for n in (0, 1, 3):
         for sliced in ("parent-not-sliced", "parent-sliced"):
@@ -377,6 +382,32 @@ def path_growth_cases():
 
             out.append(Case(f"{PROP}/sevm.Path.extend_path", f"n={n},{sliced}", harness, replay=replay_to_smt2, sources=("halmos.sevm:Path.extend_path",)))
     return out
+
+
+def replay_ground_constraint(r):
+    """real path: keccak(x) == keccak(0) and x != 0 is infeasible because of what sha3_data records for the concrete hash"""
+    from contracts.common import mk_ex, mk_sevm
+
+    sevm = mk_sevm()
+    ex = mk_ex(sevm)
+    x = z3.BitVec("x", 256)
+    h0 = ex.sha3_data(z3.BitVecVal(0, 256))
+    hx = ex.sha3_data(x)
+    ex.path.append(hx == h0)
+    ex.path.append(x != 0)
+    q = ex.path.to_smt2(config())
+    import subprocess
+    import tempfile
+
+    with tempfile.NamedTemporaryFile("w", suffix=".smt2", delete=False) as f:
+        f.write("(set-logic QF_AUFBV)\n" + q.smtlib + "\n(check-sat)\n")
+        name = f.name
+    out = subprocess.run(["z3", name], capture_output=True, text=True, timeout=60).stdout.strip().splitlines()[:1]
+    held = len(list(ex.path.conditions))
+    solver_has = len(ex.path.solver.assertions())
+    if out == ["sat"] or held < solver_has:
+        return {"reproduced": True, "detail": f"path keccak(x) == keccak(0), x != 0: the query written from the path is {out} (the path is infeasible under the recorded hash facts); Path.conditions holds {held} constraints, the branching solver {solver_has}: constraints without a variable are not recorded", "inputs": "sha3_data(0); sha3_data(x); append(hx == h0); append(x != 0)"}
+    return {"reproduced": False, "detail": f"the serialised query is {out} and all {held} constraints are recorded"}
 
 
 class RecFile:
@@ -461,7 +492,11 @@ def refine_ctx_cases():
 
 
 def build_cases(tier="quick"):
-    return to_smt2_cases() + path_growth_cases() + dump_cases() + refine_ctx_cases()
+    # the solver is given the file written from this path's query (C05 contract of solve_low_level)
+    from contracts import c05
+
+    ref = [Case(f"{PROP}/solve.solve_low_level#query-of-this-path", c.case, c.harness, replay=c.replay, sources=c.sources) for c in c05.timeout_cases()]
+    return to_smt2_cases() + path_growth_cases() + dump_cases() + refine_ctx_cases() + ref
 
 
 def grounds():
